@@ -23,7 +23,7 @@ from .. import engine, fpx
 from ..translate import blocks
 
 THEOREMS = ["generated_wf", "exp_shape", "ln2hi_short", "ln2_enclosure", "exp_reduction_16", "exp_reduction_32", "exp_reduction_64",
-            "exp_constants", "exp_reconstruction_bounds", "exp_reduction_bits_f32"]
+            "exp_constants", "exp_reconstruction_bounds", "exp_reduction_bits_f32", "exp_reduction_bits_f16", "exp_reduction_bits_f64"]
 SEARCHED = ["k integral, |r+c| <= 0.55 ln2, |k ln2 + (r+c) - x| <= ulp(x) (mpmath reconstruction; also a theorem over Q, see THEOREMS)",
             "trigonometric reduction: k in {0,1,2,3}, |r| <= 1.1 pi/4, remainder within 1 ULP (10 ULP float16) — search only (not traceable)"]
 TRUSTED = [
@@ -38,7 +38,7 @@ LEVEL_TEXT = ("Partial proof. Theorems on the regenerated exponent-reduction pro
               "conditions): for the format's precision and emin, ANY round-to-nearest and every representable |x| <= 11.09 / 88.73 / 709.79, |k| <= 16 / 128 / 1024, the product k*ln2hi "
               "and the subtraction x - k*ln2hi are EXACT, k*(ln2hi+ln2lo) + (r + c) differs from x only by the rounding error of k*ln2lo (<= 5e-5 / 2e-11 / 3e-23), "
               "|r + c| <= 0.361 / 0.348 / 0.347 < 0.55 ln 2, and k = 0 gives the identity; with the rational enclosure of ln 2 the distance of k*ln 2 + (r + c) from x is at most "
-              "1.2e-4 / 3e-11 / 5e-23 (exp_reconstruction_bounds). floor enters as the mathematical floor of the rounded argument. exp_reduction_bits_f32 carries the statement to the BIT PATTERNS the regenerated float32 "
+              "1.2e-4 / 3e-11 / 5e-23 (exp_reconstruction_bounds). floor enters as the mathematical floor of the rounded argument. exp_reduction_bits_f16/f32/f64 carry the statement to the BIT PATTERNS the regenerated "
               "program computes (exp_shape + correct rounding of the softfloat mul/add/sub), assuming of the floor oracle only that it returns the pattern of the floor. "
               "The trigonometric reduction is decided by mpmath-based search on the real functions.")
 LEVEL_NOTE = "Exponential reduction: theorem over Q (exactness of r, reconstruction error, |r+c| bound). Trigonometric reduction: search only (Payne–Hanek analysis not formalised)."
